@@ -67,8 +67,8 @@ class Server:
             self.p.kill()
 
 
-def run_chunk(prop, seed, tier, chunk, run_ids, cpu, wall):
-    hs = hashseed_for(seed, prop, chunk)
+def run_chunk(prop, seed, tier, chunk, run_ids, cpu, wall, hashseed=None):
+    hs = hashseed_for(seed, prop, chunk) if hashseed is None else hashseed
     reqs = "".join(json.dumps({"cmd": "run", "prop": prop, "seed": seed, "run": r, "tier": tier,
                                "cpu": cpu, "wall": wall}) + "\n" for r in run_ids)
     p = subprocess.Popen([PY, "-m", "sim.worker"], cwd=VERIF, env=_env(hs), stdin=subprocess.PIPE,
@@ -431,6 +431,8 @@ def main(argv=None):
     ap.add_argument("--seed", type=int)
     ap.add_argument("--only-run", type=int)
     ap.add_argument("--no-evidence", action="store_true")
+    for flag in ("--full", "--determinism", "--oracles", "--sensitivity"):
+        ap.add_argument(flag, action="store_true")
     a = ap.parse_args(argv)
     if a.prop == "selftest":
         from . import selftest
